@@ -2820,7 +2820,14 @@ func (data *Data) DropSubscription(database, rp, name string) error {
 		if !ok {
 			return ErrDatabaseNotExists
 		}
-		for _, rpi := range db.RetentionPolicies {
+		// every replica must drop from the same policy: walk the policies in name order, not in map order
+		rpNames := make([]string, 0, len(db.RetentionPolicies))
+		for rpName := range db.RetentionPolicies {
+			rpNames = append(rpNames, rpName)
+		}
+		sort.Strings(rpNames)
+		for _, rpName := range rpNames {
+			rpi := db.RetentionPolicies[rpName]
 			for i := range rpi.Subscriptions {
 				if rpi.Subscriptions[i].Name == name {
 					rpi.Subscriptions = append(rpi.Subscriptions[:i], rpi.Subscriptions[i+1:]...)
